@@ -34,7 +34,8 @@ META = {
             "if the set were absent), outer_locality (what a clean prefix decodes to does not depend on what follows) and "
             "decode_skips: for hdr ++ pre ++ u ++ post vs hdr ++ pre ++ post, where pre decodes on its own cleanly to its exact "
             "end and u is skipped at the cache reached there (Skipped; instances skipped_of_undecodable, skipped_of_unknownElem, Ipfix.skipped_of_noFields), "
-            "the records, the resulting cache and the fatal-error outcome are equal. The models are tied to ipfix/decoder.go and "
+            "the records, the resulting cache and the fatal-error outcome are equal. nonfatal_reviewed: the declaration of nonfatalError "
+            "in both decoders and every construction of one (= the models' non-fatal classes) are the reviewed inventory. The models are tied to ipfix/decoder.go and "
             "netflow/v9/decoder.go by running both on every insertion position and every truncation offset of sampled "
             "well-formed messages, with a model-independent prefix/equality oracle on the real decoder's output.",
     "ref": "DESIGN.md §6 C09",
